@@ -23,6 +23,9 @@ from .oracles import rfc
 TZ_NAMES = set(rfc.TZID_ADMITTING) | {"FREEBUSY"}
 
 
+REAL_CODECS = {"ATTENDEE", "ORGANIZER"}
+
+
 class StubFactory:
     """Stands for the codec class chosen by types_factory.for_property(name)."""
 
@@ -53,7 +56,14 @@ class ParseInterp(Interp):
 
     def _native_obj_attr(self, o, name):
         if o.name == "types_factory" and name == "for_property":
-            return Native("for_property", lambda i, a, k: StubFactory(self._str(a[0]), self.log))
+            def for_property(i, a, k):
+                nm = self._str(a[0])
+                if nm.upper() in REAL_CODECS:
+                    # the real codec class (text-like: interpreted as written), so that
+                    # sharing of value objects between lines is visible
+                    return ClassVal(self.model.class_for_property(nm))
+                return StubFactory(nm, self.log)
+            return Native("for_property", for_property)
         if o.name == "tzp" and name == "cache_timezone_component":
             return Native("cache", lambda i, a, k: self.log.append(("cache", a[0])))
         if o.name == "component_factory" and name == "get":
@@ -79,10 +89,22 @@ class ParseInterp(Interp):
 
     def call(self, f, args, kwargs):
         if isinstance(f, StubFactory):
-            v = Obj(None)
-            v.attrs["decoded"] = args[0]
+            d = args[0]
+            if isinstance(d, tuple) and len(d) == 4 and d[0] == "decoded" and d[2] == "":
+                # an empty value is a *falsy* object (like vText(''), vInt(0))
+                v = self.instantiate(self.model.cls("prop.vText"), [""], {})
+            else:
+                v = Obj(None)
+            v.attrs["decoded"] = d
             return v
         return super().call(f, args, kwargs)
+
+    def _isinstance(self, i, a, k):
+        ts = a[1] if isinstance(a[1], tuple) else (a[1],)
+        if any(isinstance(t, StubFactory) for t in ts):
+            rest = tuple(t for t in ts if not isinstance(t, StubFactory))
+            return bool(rest) and super()._isinstance(i, (a[0], rest), k)
+        return super()._isinstance(i, a, k)
 
     def truth(self, v):
         if isinstance(v, StubFactory):
@@ -113,6 +135,8 @@ ALPHABET = [
     ("FREEBUSY;TZID=Z:a,b", "FREEBUSY", {"TZID": "Z"}, "a,b", False),
     ("SUMMARY:BAD", "SUMMARY", {}, "BADvalue", False),
     ("<bad line>", "", {}, "", True),
+    ("COMMENT:", "COMMENT", {}, "", False),
+    ("COMMENT:x", "COMMENT", {"X": "1"}, "x", False),
 ]
 EXTRA = [
     ("X-COMMENT:c", "X-COMMENT", {}, "c", False),
@@ -122,6 +146,9 @@ EXTRA = [
     ("END:VTIMEZONE", "END", {}, "vtimezone", False),
     ("BEGIN:VTIMEZONE", "BEGIN", {}, "VTIMEZONE", False),
     ("TZID:Zone", "TZID", {}, "Zone", False),
+    ("ATTENDEE;CN=A:mailto:x", "ATTENDEE", {"CN": "A"}, "mailto:x", False),
+    ("ATTENDEE;ROLE=B:mailto:x", "ATTENDEE", {"ROLE": "B"}, "mailto:x", False),
+    ("ORGANIZER;CN=C:mailto:x", "ORGANIZER", {"CN": "C"}, "mailto:x", False),
 ]
 
 
@@ -206,6 +233,8 @@ def observed_struct(it, comp):
             ps = tuple(sorted((kk, vv) for kk, vv in p.items.items())) if isinstance(p, Obj) and p.items is not None else None
             if isinstance(d, tuple) and d and d[0] == "decoded":
                 row.append((d[2], d[3], ps))
+            elif isinstance(x, Obj) and x.strval is not None:
+                row.append((x.strval, None, ps))        # a real text-like codec value
             else:
                 row.append(("?", None, ps))
         items.append((k, tuple(row)))
@@ -255,6 +284,10 @@ def explore(ctx, max_len, extra_sequences=True):
             ["BEGIN:VTODO", "SUMMARY:a", "SUMMARY:BAD", "END"],
             ["begin:vevent", "begin:vevent", "begin:vevent", "SUMMARY:a", "end", "end", "end"],
             ["BEGIN:VTIMEZONE", "END:VTIMEZONE"],
+            ["BEGIN:VCALENDAR", "begin:vevent", "ATTENDEE;CN=A:mailto:x", "ATTENDEE;ROLE=B:mailto:x",
+             "ORGANIZER;CN=C:mailto:x", "END", "BEGIN:VTODO", "ATTENDEE;ROLE=B:mailto:x", "END", "END"],
+            ["BEGIN:VTODO", "COMMENT:", "COMMENT:x", "COMMENT:", "COMMENT:x", "END"],
+            ["BEGIN:VTODO", "COMMENT:x", "COMMENT:", "END"],
         ]
         for c in curated:
             seqs.append([A[x] for x in c])
